@@ -127,7 +127,8 @@ func c17Concats(items []string, minLen, maxLen int, out []string) []string {
 type c17Family struct {
 	name    string
 	regexes []string
-	big     bool // uses the extended string set derived from the literals
+	big     bool     // uses the extended string set derived from the literals
+	strs    []string // own string set (overrides big)
 }
 
 type c17Sizes struct {
@@ -194,6 +195,8 @@ func c17BuildFamilies(sz c17Sizes) []c17Family {
 	}
 	fams = append(fams, c17Family{name: "big-alternation", regexes: c17BigAlternations(sz), big: true})
 	fams = append(fams, c17Family{name: "distinct-first-letter-alternation", regexes: c17DistinctFirst(sz), big: true})
+	lre, lstrs := c17LongMembers()
+	fams = append(fams, c17Family{name: "long-member-sets", regexes: lre, strs: lstrs})
 	return fams
 }
 
@@ -277,6 +280,82 @@ func c17BigAlternations(sz c17Sizes) []string {
 		}
 	}
 	return out
+}
+
+// c17LongMembers: value sets whose members have byte lengths on the boundaries of the 64-bit
+// length mask of the multi-string matchers (62..65) and at 127..129, as plain x...x literals with a
+// distinguishing last byte, with a distinct first byte (no common prefix), and with multi-byte
+// runes (byte length != rune count); in alternations of 2, of all lengths (< 16 values, slice
+// matcher) and of >= 16 values (map matcher), case-sensitive and case-insensitive, bare, grouped
+// and followed by a wildcard. Strings: every member and its near misses (last byte dropped, one
+// byte appended, last byte changed, case swapped).
+func c17LongMembers() (regexes, strs []string) {
+	lens := []int{1, 62, 63, 64, 65, 127, 128, 129}
+	type gen func(l int, last byte) string
+	gens := []gen{
+		func(l int, last byte) string { return strings.Repeat("x", l-1) + string(last) }, // common prefix
+		nil,
+	}
+	gens[1] = func(l int, last byte) string { // distinct first byte per length, no common prefix
+		if l == 1 {
+			return string(last)
+		}
+		return string(rune('c'+l%23)) + strings.Repeat("x", l-2) + string(last)
+	}
+	gens = append(gens, func(l int, last byte) string { // 2-byte runes: byte length l, rune count about l/2
+		if l == 1 {
+			return string(last)
+		}
+		return strings.Repeat(c17LongS, (l-1)/2) + strings.Repeat("x", (l-1)%2) + string(last)
+	})
+	seenS := map[string]struct{}{}
+	addS := func(v ...string) {
+		for _, x := range v {
+			if _, ok := seenS[x]; !ok {
+				seenS[x] = struct{}{}
+				strs = append(strs, x)
+			}
+		}
+	}
+	addS("", "x", "a")
+	shapes := func(L string) []string {
+		return []string{L, "(" + L + ")", "(?i:" + L + ")", "(?i)" + L, "(" + L + ").*", ".*(" + L + ")", "(?i:(" + L + ").*)", "(" + L + ")|", "^(?:" + L + ")$"}
+	}
+	for _, g := range gens {
+		var members []string
+		for _, l := range lens {
+			for _, last := range []byte{'a', 'b', 'c'} {
+				m := g(l, last)
+				members = append(members, m)
+				addS(m, m[:len(m)-1], m+"x", m+string(last), m[:len(m)-1]+"z", strings.ToUpper(m), strings.ToUpper(m)+"x",
+					strings.ReplaceAll(m, c17LongS, "s"), strings.ReplaceAll(m, c17LongS, "S"))
+			}
+		}
+		// pairs of lengths (last byte a): 2-value sets
+		for i := range lens {
+			for j := range lens {
+				if i != j {
+					for _, sh := range shapes(g(lens[i], 'a') + "|" + g(lens[j], 'a')) {
+						regexes = append(regexes, sh)
+					}
+				}
+			}
+		}
+		// all lengths, one value each (8 values: slice matcher), and all 24 values (map matcher)
+		var one []string
+		for _, l := range lens {
+			one = append(one, g(l, 'a'))
+		}
+		for _, set := range [][]string{one, members, members[3:], members[:18]} {
+			regexes = append(regexes, shapes(strings.Join(set, "|"))...)
+		}
+		// single long literal and literal with a one-letter class at the end: a[bc] style sets
+		for _, l := range lens {
+			m := g(l, 'a')
+			regexes = append(regexes, m, "(?i:"+m+")", m[:len(m)-1]+"[abc]", "(?i:"+m[:len(m)-1]+"[abc])", m[:len(m)-1]+"(a|b)")
+		}
+	}
+	return regexes, strs
 }
 
 // c17DistinctLits: n literals with pairwise distinct first letters (the parser cannot factor a
@@ -656,6 +735,9 @@ func TestVerifC17(t *testing.T) {
 		strs := general
 		if j.big {
 			strs = big
+		}
+		if fams[j.fam].strs != nil {
+			strs = fams[j.fam].strs
 		}
 		if c17RunOne(r, j.re, strs) {
 			accepted.Add(1)
